@@ -7,7 +7,7 @@
    tied to golua by the correspondence check lib/props/C11.py (raise-site x
    catch-site x value matrix, golua vs extracted LuaCore). *)
 From Coq Require Import ZArith List Bool.
-From GV Require Import Lua.Syntax Lua.Value Lua.Machine Lua.Meta.
+From GV Require Import Lua.Syntax Lua.Value Lua.Machine Lua.Meta Lua.Wf.
 Import ListNotations.
 Open Scope Z_scope.
 
@@ -124,3 +124,21 @@ Theorem C11_closing_done_resumes_exit : forall vs o k σ tr ln cs,
   step (mkCfg (CRet vs) (KClosing (POut o) :: k) σ tr ln cs) = inl (mkCfg (COut o) k σ tr ln cs).
 Proof. exact closing_done_resumes_exit. Qed.
 Print Assumptions C11_closing_done_resumes_exit.
+
+(* multi-step unwinding through to-be-closed scopes: if every closing method on the way
+   returns normally (`closers_return`), the closing frames run and then the nearest barrier
+   receives `false` and the value raised, intact; frames further out are untouched *)
+Theorem C11_error_reaches_barrier_through_scopes : forall k1 h k2 v,
+  closers_return v k1 (KPcall h :: k2) ->
+  forall σ tr ln cs, exists σ' tr' ln' cs',
+  reaches (mkCfg (COut (OError v)) (k1 ++ KPcall h :: k2) σ tr ln cs)
+          (mkCfg (CRet [VBool false; v]) k2 σ' tr' ln' cs').
+Proof. exact error_reaches_barrier_through_scopes. Qed.
+Print Assumptions C11_error_reaches_barrier_through_scopes.
+
+(* state_consistent_after_catch: well-formedness (every variable of every frame, closure
+   and suspended coroutine denotes an allocated cell) is an invariant of every step, so it
+   holds in the state after a catch and in everything that runs afterwards *)
+Theorem C11_state_consistent_after_catch : forall m c c', wf c -> steps m c = inl c' -> wf c'.
+Proof. exact steps_wf. Qed.
+Print Assumptions C11_state_consistent_after_catch.
